@@ -143,9 +143,14 @@ def run(chk: Check):
                 if not thorough:
                     fs = whole + fs[:: max(1, len(fs) // (70 if kind == "akai" else 40))]
                     multi = multi[:25]
-                for f in fs + multi:
+                todo = fs + multi
+
+                def one(f, image=image, sites=sites, kind=kind):
+                    w = os.path.join(work, f"w{os.getpid()}")
+                    os.makedirs(w, exist_ok=True)
+                    return observe(faults.apply(image, sites, f), kind, w)
+                for f, obs in zip(todo, faults.parallel(one, todo, procs=8)):
                     dmg = faults.apply(image, sites, f)
-                    obs = observe(dmg, kind, work)
                     chk.evaluated((kind, entry, json.dumps(f)), nontrivial=True)
                     problems = []
                     if obs["err"] == "hang":
